@@ -413,6 +413,23 @@ func TestC13Registry(t *testing.T) {
 		}
 		_ = seen
 	}
+	// block-entity position packing (used when block entities come from the save form): all 256 positions
+	if pbt.Shard == 0 {
+		for x := 0; x < 16; x++ {
+			for z := 0; z < 16; z++ {
+				var be level.BlockEntity
+				if !be.PackXZ(x, z) {
+					pbt.Fail(t, "C13Registry", x*16+z, pbt.V("c13.packxz", "block entity positions", "PackXZ(%d,%d) refused", x, z))
+					return
+				}
+				if gx, gz := be.UnpackXZ(); gx != x || gz != z || uint8(be.XZ) != uint8(x<<4|z) {
+					pbt.Fail(t, "C13Registry", x*16+z, pbt.V("c13.packxz", "block entity positions are packed as X<<4|Z and unpack to themselves", "PackXZ(%d,%d)=%#x, UnpackXZ=(%d,%d)", x, z, uint8(be.XZ), gx, gz))
+					return
+				}
+			}
+		}
+		pbt.Ev.LabelN("packxz_positions", 256)
+	}
 	// injectivity of (name, properties) over the whole table, independent of chunks
 	if pbt.Shard == 0 {
 		seen := map[string]int{}
